@@ -2,6 +2,7 @@ package common
 
 import (
 	"encoding/binary"
+	"strings"
 	"time"
 
 	"verifsim/kernel"
@@ -29,6 +30,7 @@ type Relay struct {
 	ToServer    *simnet.StreamConn // relay's end of the connection to the server
 	Ops         []FrameOp
 	WrongSecret string // base64, used by "wrongkey"
+	RightSecret string // base64, used by "parentkey": the receiver's secret under a name that is not the key's
 	KeyName     string
 	Alg         string
 	Rewrite     func(kind string, frame []byte) []byte // record-level edits done by the harness (nonsoa, trailing)
@@ -218,6 +220,20 @@ func (p *pump) RunEvent(time.Time) {
 			// signed under a key name the receiver holds no secret for, with the empty key
 			if t, _, has := oracle.FindTSIG(b); has {
 				c := oracle.SignTSIG(oracle.StripTSIG(b), "nobody-has-this-key.", r.Alg, "", prior, timers, t.Time, t.Fudge)
+				ok = p.forward(c, false)
+			} else {
+				ok = p.forward(b, inOrder)
+			}
+		case "parentkey":
+			// signed with the receiver's own secret, but under another key name: the parent
+			// domain of the key's name, or the root (a peer that holds the secret under another
+			// name; the receiver has no key of that name)
+			if t, _, has := oracle.FindTSIG(b); has && r.RightSecret != "" {
+				name := "."
+				if i := strings.IndexByte(r.KeyName, '.'); op.Frac%2 == 0 && i >= 0 && i+1 < len(r.KeyName) {
+					name = r.KeyName[i+1:]
+				}
+				c := oracle.SignTSIG(oracle.StripTSIG(b), name, r.Alg, r.RightSecret, prior, timers, t.Time, t.Fudge)
 				ok = p.forward(c, false)
 			} else {
 				ok = p.forward(b, inOrder)
